@@ -3,7 +3,8 @@
    1.23.5 net/http.ReadResponse + textproto + chunked reader, = the fork's reader after the
    fix: commits; tied to both on every run by harness/c04), Model/H1Render.v (sender side,
    used to state the round-trip theorems). *)
-From ReqV Require Import Lib.Bytes Model.H1Resp Model.H1Render Proofs.H1RespProofs.
+From ReqV Require Import Lib.Bytes Model.H1Resp Model.H1Render Model.H1RenderHead
+  Proofs.H1RespProofs Proofs.H1HeadProofs Proofs.H1MimeProofs Proofs.H1TransferProofs.
 From ReqV Require Gen.H1Tables.
 From Coq Require Import Lia.
 
@@ -100,6 +101,237 @@ Theorem C04_chunk_constants_agree :
 Proof. exact chunk_constants_agree. Qed.
 Print Assumptions C04_chunk_constants_agree.
 
+(* ---------------------------------------------------------------------- *)
+(* status line                                                              *)
+(* ---------------------------------------------------------------------- *)
+
+(* complete classification, in ReadResponse's order of checks *)
+Theorem C04_status_line_classes : forall line,
+  match parse_status_line line with
+  | inr sl => exists proto rest, cut_byte SP line = Some (proto, rest) /\
+                sl_proto sl = proto /\ sl_status sl = status_text rest /\
+                code_value (status_code_field rest) = Some (sl_code sl) /\
+                parse_http_version proto = Some (sl_major sl, sl_minor sl)
+  | inl HMalformedResponse => mem_byte SP line = false
+  | inl HMalformedStatus => exists proto rest, cut_byte SP line = Some (proto, rest) /\
+                code_value (status_code_field rest) = None
+  | inl HMalformedVersion => exists proto rest n, cut_byte SP line = Some (proto, rest) /\
+                code_value (status_code_field rest) = Some n /\ parse_http_version proto = None
+  | inl _ => False
+  end.
+Proof. exact status_line_classes. Qed.
+Print Assumptions C04_status_line_classes.
+
+Theorem C04_http_version_spec : forall v x y,
+  parse_http_version v = Some (x, y) <->
+  exists a b, v = bs "HTTP/" ++ [a; "."%byte; b] /\
+              is_digit a = true /\ is_digit b = true /\ x = dval a /\ y = dval b.
+Proof. exact http_version_spec. Qed.
+Print Assumptions C04_http_version_spec.
+
+Theorem C04_status_line_ranges : forall line sl,
+  parse_status_line line = inr sl ->
+  (0 <= sl_code sl <= 999)%Z /\ (0 <= sl_major sl <= 9)%Z /\ (0 <= sl_minor sl <= 9)%Z.
+Proof. exact status_line_ranges. Qed.
+Print Assumptions C04_status_line_ranges.
+
+Theorem C04_status_line_round_trip : forall a b d1 d2 d3 reason,
+  is_digit a = true -> is_digit b = true ->
+  is_digit d1 = true -> is_digit d2 = true -> is_digit d3 = true ->
+  parse_status_line (bs "HTTP/" ++ [a; "."%byte; b] ++ SP :: [d1; d2; d3] ++ SP :: reason) =
+    inr {| sl_proto := bs "HTTP/" ++ [a; "."%byte; b];
+           sl_status := [d1; d2; d3] ++ SP :: reason;
+           sl_code := (100 * dval d1 + 10 * dval d2 + dval d3)%Z;
+           sl_major := dval a; sl_minor := dval b |}.
+Proof. exact status_line_round_trip. Qed.
+Print Assumptions C04_status_line_round_trip.
+
+(* ---------------------------------------------------------------------- *)
+(* header block                                                             *)
+(* ---------------------------------------------------------------------- *)
+
+Theorem C04_canonical_key_spec : forall k,
+  match canonical_key k with
+  | None => k = [] \/ forallb key_byte_ok k = false
+  | Some k' => k <> [] /\ forallb key_byte_ok k = true /\
+               k' = (if forallb is_tchar k then canon_go true k else k)
+  end.
+Proof. exact canonical_key_spec. Qed.
+Print Assumptions C04_canonical_key_spec.
+
+(* header names are case-insensitive; canonicalisation changes letter case only, yields the
+   canonical shape, and is idempotent *)
+Theorem C04_canon_case_insensitive : forall u k1 k2,
+  to_lower k1 = to_lower k2 -> canon_go u k1 = canon_go u k2.
+Proof. exact canon_case_insensitive. Qed.
+Print Assumptions C04_canon_case_insensitive.
+
+Theorem C04_canon_shape : forall k u,
+  canonical_form u (canon_go u k) = true /\ to_lower (canon_go u k) = to_lower k /\
+  canon_go u (canon_go u k) = canon_go u k.
+Proof. intros k u. exact (conj (canon_is_canonical k u) (conj (canon_only_case k u) (canon_idempotent k u))). Qed.
+Print Assumptions C04_canon_shape.
+
+(* EVERY well-formed header block (token names in any case; values optionally folded over
+   continuation lines introduced by any run of SP/HT) is read back as exactly what was sent,
+   folded pieces joined by one SP, and the reader stops right after the blank line *)
+Theorem C04_mime_header_round_trip : forall bufsize fs rest,
+  Forall field_ok fs ->
+  read_mime_header bufsize (render_fields fs ++ CRLF ++ rest) = inr (header_of_fields fs, rest).
+Proof. exact mime_header_round_trip. Qed.
+Print Assumptions C04_mime_header_round_trip.
+
+(* an ACCEPTED header map: keys are fixed points of canonicalMIMEHeaderKey and unique, every
+   value consists of field-value bytes only (no CTL but HT, no DEL) and has no leading blank *)
+Theorem C04_mime_header_accepted_ok : forall bufsize s m r,
+  read_mime_header bufsize s = inr (m, r) -> hmap_ok m.
+Proof. exact mime_header_accepted_ok. Qed.
+Print Assumptions C04_mime_header_accepted_ok.
+
+(* ---------------------------------------------------------------------- *)
+(* transfer decision tables                                                 *)
+(* ---------------------------------------------------------------------- *)
+
+Theorem C04_parse_uint63_spec : forall s n,
+  parse_uint63 s = Some n <->
+  s <> [] /\ forallb is_digit s = true /\ n = dec_value s /\ (n < 2 ^ 63)%Z.
+Proof. exact parse_uint63_spec. Qed.
+Print Assumptions C04_parse_uint63_spec.
+
+(* Content-Length: (1) values that differ after trimming -> error, whatever else; (2) a value
+   that is not a 63-bit decimal -> error, also for HEAD/1xx/204/304/chunked; (3) otherwise
+   the table.  The three cases are exhaustive. *)
+Theorem C04_fix_length_conflict : forall code meth h chunked,
+  cls_agree (cl_values h) = false -> fix_length code meth h chunked = inl HBadContentLength.
+Proof. exact fix_length_conflict. Qed.
+Print Assumptions C04_fix_length_conflict.
+
+Theorem C04_fix_length_invalid : forall code meth h chunked c0 rest,
+  cl_values h = c0 :: rest -> parse_uint63 (trim_string c0) = None ->
+  fix_length code meth h chunked = inl HBadContentLength.
+Proof. exact fix_length_invalid. Qed.
+Print Assumptions C04_fix_length_invalid.
+
+Theorem C04_fix_length_table : forall code meth h chunked,
+  cls_agree (cl_values h) = true ->
+  forall v, match cl_values h with
+            | c0 :: _ => parse_uint63 (trim_string c0) = Some v
+            | [] => v = (-1)%Z
+            end ->
+  fix_length code meth h chunked =
+    inr (if no_body_expected code meth then (0%Z, dedup_header h)
+         else if chunked then ((-1)%Z, hdel K_CL (dedup_header h))
+         else if is_nil (cl_values h) then ((-1)%Z, hdel K_CL (dedup_header h))
+         else (v, dedup_header h)).
+Proof. exact fix_length_table. Qed.
+Print Assumptions C04_fix_length_table.
+
+Theorem C04_transfer_encoding_table : forall ma mi h,
+  parse_transfer_encoding ma mi h =
+  match hget K_TE h with
+  | None => inr (false, h)
+  | Some raw =>
+      if negb (proto_at_least_1_1 ma mi) then inr (false, hdel K_TE h)
+      else match raw with
+           | [v] => if bytes_eqb (to_lower v) (bs "chunked") then inr (true, hdel K_TE h)
+                    else inl HBadTransferEncoding
+           | _ => inl HBadTransferEncoding
+           end
+  end.
+Proof. exact transfer_encoding_table. Qed.
+Print Assumptions C04_transfer_encoding_table.
+
+Theorem C04_transfer_encoding_removed : forall ma mi h ch h',
+  parse_transfer_encoding ma mi h = inr (ch, h') ->
+  hget K_TE h' = None /\ forall k, bytes_eqb k K_TE = false -> hget k h' = hget k h.
+Proof. exact transfer_encoding_removed. Qed.
+Print Assumptions C04_transfer_encoding_removed.
+
+Theorem C04_should_close_table : forall ma mi h,
+  should_close ma mi h =
+  if (ma <? 1)%Z then (true, h)
+  else if (ma =? 1)%Z && (mi =? 0)%Z then (has_close h || negb (has_keep_alive h), h)
+  else if has_close h then (true, hdel K_CONNECTION h)
+  else (false, h).
+Proof. exact should_close_table. Qed.
+Print Assumptions C04_should_close_table.
+
+Theorem C04_fix_trailer_ok : forall h tr h',
+  fix_trailer h true = inr (tr, h') ->
+  match hget K_TRAILER h with
+  | None => tr = [] /\ h' = h
+  | Some vv => existsb bad_trailer_key (declared_keys vv) = false /\
+               hget K_TRAILER h' = None /\
+               (forall k vs, hget k tr = Some vs -> vs = [])
+  end.
+Proof. exact fix_trailer_ok. Qed.
+Print Assumptions C04_fix_trailer_ok.
+
+Theorem C04_bad_trailer_key_cases : forall k,
+  bad_trailer_key (canonical_header_key k) = true <->
+  to_lower k = bs "transfer-encoding" \/ to_lower k = bs "trailer" \/ to_lower k = bs "content-length".
+Proof. exact bad_trailer_key_cases. Qed.
+Print Assumptions C04_bad_trailer_key_cases.
+
+(* ---------------------------------------------------------------------- *)
+(* framing decision, keep-alive, request method                             *)
+(* ---------------------------------------------------------------------- *)
+
+Theorem C04_framing_table : forall meth sl h0 r,
+  read_transfer meth sl h0 = inr r ->
+  r_framing r =
+    if no_body_expected (sl_code sl) meth then FrNone
+    else if r_chunked r then FrChunked
+    else if (r_content_length r =? 0)%Z then FrNone
+    else if (r_content_length r >? 0)%Z then FrLength (r_content_length r)
+    else FrUntilClose.
+Proof. exact framing_table. Qed.
+Print Assumptions C04_framing_table.
+
+Theorem C04_head_no_body : forall meth sl h0 r,
+  read_transfer meth sl h0 = inr r -> is_head meth = true -> r_framing r = FrNone.
+Proof. exact head_no_body. Qed.
+Print Assumptions C04_head_no_body.
+
+Theorem C04_bodiless_status_no_body : forall meth sl h0 r,
+  read_transfer meth sl h0 = inr r ->
+  body_allowed_for_status (sl_code sl) = false -> r_framing r = FrNone.
+Proof. exact bodiless_status_no_body. Qed.
+Print Assumptions C04_bodiless_status_no_body.
+
+Theorem C04_until_close_implies_close : forall meth sl h0 r,
+  read_transfer meth sl h0 = inr r -> r_framing r = FrUntilClose -> r_close r = true.
+Proof. exact until_close_implies_close. Qed.
+Print Assumptions C04_until_close_implies_close.
+
+Theorem C04_close_decision : forall meth sl h0 r,
+  read_transfer meth sl h0 = inr r ->
+  r_close r = (fst (should_close (sl_major sl) (sl_minor sl) h0) ||
+               match r_framing r with FrUntilClose => true | _ => false end).
+Proof. exact close_decision. Qed.
+Print Assumptions C04_close_decision.
+
+Theorem C04_chunked_overrides_length : forall meth sl h0 r,
+  read_transfer meth sl h0 = inr r -> r_framing r = FrChunked ->
+  r_chunked r = true /\ hget K_CL (r_header r) = None /\ r_content_length r = (-1)%Z.
+Proof. exact chunked_overrides_length. Qed.
+Print Assumptions C04_chunked_overrides_length.
+
+(* the method matters only through "is it HEAD": CONNECT is read like GET *)
+Theorem C04_method_only_head : forall m1 m2 bufsize s,
+  is_head m1 = is_head m2 -> parse_response m1 bufsize s = parse_response m2 bufsize s.
+Proof. exact method_only_head. Qed.
+Print Assumptions C04_method_only_head.
+
+(* keep-alive and boundary together: a response that may be kept alive and ended cleanly is
+   read identically, and ends at the same byte, whatever the server sends next *)
+Theorem C04_keep_alive_boundary : forall meth bufsize s r b t,
+  parse_response meth bufsize s = Accepted r b ->
+  r_close r = false -> b_end b = BOk ->
+  parse_response meth bufsize (s ++ t) = Accepted r (with_rest b (b_rest b ++ t)).
+Proof. exact keep_alive_boundary. Qed.
+Print Assumptions C04_keep_alive_boundary.
+
 (* non-vacuity: concrete odd-looking but valid chunkings satisfy the hypotheses *)
 Example C04_nonvacuous :
   chunks_ok 64 0 [(bs "5", bs "hello"); (bs "0006;ext=1 ", bs " world"); (bs "A", bs "0123456789")] /\
@@ -122,3 +354,18 @@ Example C04_boundary_nonvacuous :
   | Rejected _ => False
   end.
 Proof. vm_compute. repeat split. Qed.
+
+(* ... a folded, oddly-cased header block meets the hypotheses of the header round trip, and
+   the decision-table hypotheses are satisfiable (duplicate identical Content-Length) *)
+Example C04_header_nonvacuous :
+  let fs := [ {| hf_name := bs "x-fOLD"; hf_first := bs "a"; hf_conts := [(bs " 	 ", bs "b c"); (bs "	", bs "d")] |};
+              {| hf_name := bs "content-length"; hf_first := bs "5"; hf_conts := [] |};
+              {| hf_name := bs "X-Fold"; hf_first := bs "e"; hf_conts := [] |} ] in
+  Forall field_ok fs /\
+  header_of_fields fs = [(bs "X-Fold", [bs "a b c d"; bs "e"]); (bs "Content-Length", [bs "5"])] /\
+  cls_agree [bs "5"; bs " 5 "] = true /\ cls_agree [bs "5"; bs "6"] = false /\
+  fix_length 200 (bs "GET") [(K_CL, [bs "5"; bs " 5 "])] false = inr (5%Z, [(K_CL, [bs "5"])]).
+Proof.
+  cbn zeta. split; [|vm_compute; repeat split].
+  repeat constructor; cbn; try discriminate; try reflexivity.
+Qed.
